@@ -56,6 +56,10 @@ def run(tier, seed):
             cons.append([[t, u] for t in ts])
         tot = sum(len(c) for c in cons)
         ops = ''.join(rnd.choice('NPPP') for _ in range(tot + rnd.randint(0, 4))) + 'PP'
+        if rnd.random() < 0.25:
+            # the merged stream is cloned on the way (once or twice), the clone is consumed from there on
+            for _c in range(rnd.choice([1, 1, 2])):
+                i = rnd.randint(0, len(ops)); ops = ops[:i] + 'C' + ops[i:]
         scripts.append(cons_text(cons) + '\t' + ops)
     # an event of several RRULEs is a merge of the streams of its rules: the constituents are what each rule delivers in an event of
     # its own (recorded), the merge is the stream of the event with all the rules.  Zoned, UTC and floating DTSTARTs, date-time
